@@ -411,6 +411,9 @@ pub enum ImageSpec {
     File(u8),
     /// `pad` characters of filler (SVG text only; lets a run hit an exact file size)
     Filler(usize),
+    /// `n` characters of filler that are 1, 2, 3 or 4 bytes long in UTF-8, mixed so that any
+    /// byte offset is likely to fall inside a character (SVG text only)
+    FillerUtf8(usize),
     Raw(String),
 }
 
@@ -424,6 +427,18 @@ impl ImageSpec {
                 let mut s = String::with_capacity(*n);
                 for i in 0..*n {
                     s.push((b'a' + (i % 23) as u8) as char);
+                }
+                s
+            }
+            ImageSpec::FillerUtf8(n) => {
+                const CH: [char; 7] = ['a', '\u{e9}', '\u{540d}', '\u{1f4f7}', 'z', '\u{524d}', '\u{fc}'];
+                let mut s = String::with_capacity(*n * 3);
+                let mut x: u64 = 0x9E37_79B9_7F4A_7C15 ^ *n as u64;
+                for _ in 0..*n {
+                    x ^= x << 13;
+                    x ^= x >> 7;
+                    x ^= x << 17;
+                    s.push(CH[(x % 7) as usize]);
                 }
                 s
             }
